@@ -1,12 +1,669 @@
-// Package c06: correspondence harness of C06 (stub: replaced when C06 is built).
+// Package c06: derived GoString round-trips through the Go compiler.
+//
+// Stage 1: types with exported fields only live in an importable package p/lib; goderive
+// generates deriveGoString for each; a driver calls it on the value pools and the returned
+// TEXTS are collected.  (S) every text is parsed with go/parser into the statement language of
+// coq/theories/GoStr and compared by the evaluator with the model's expression.
+// Stage 2 (B): a second program is assembled from the texts (one function per value), compiled
+// against p/lib and the imported packages, every expression is evaluated and serialised with
+// the driver runtime's `ser`; the evaluator compares it with the original value (shipped
+// across by the harness' own s-expression encoder) using C02's structural equality.
 package c06
 
 import (
 	"fmt"
+	"os"
+	"path/filepath"
+	"regexp"
+	"sort"
+	"strconv"
+	"strings"
 
+	"verifharness/internal/ga"
 	"verifharness/internal/hx"
 )
 
+type tcase struct {
+	idx  int
+	t    *ga.Type
+	vals []*ga.Val
+	text []string // returned by deriveGoString, "" + panic flag
+	bad  []string // stage-1 problem ("panic", "nofunc")
+	sx   []string // parsed text
+	rt   []string // stage-2 value
+}
+
 func Run(cfg hx.Config) (*hx.Meta, error) {
-	return nil, fmt.Errorf("C06: harness not built yet")
+	meta := &hx.Meta{Property: "C06", Seed: cfg.Seed, Tier: cfg.Tier}
+	r := hx.NewRand(cfg.Seed)
+	cat := ga.NewCatalogue()
+	var shapes []*ga.Type
+	pool := 16
+	if cfg.Tier == "thorough" {
+		shapes = cat.Shapes(r, 2, 1500)
+		pool = 32
+	} else {
+		// quick: every leaf and every depth-1 shape, a seeded slice of the depth-2 shapes, random deeper ones
+		shapes = cat.Shapes(r, 1, 40)
+		d2 := cat.Shapes(r, 2, 0)
+		hx.Shuffle(r, d2)
+		shapes = append(shapes, d2[:120]...)
+	}
+	shapes = ga.Dedup(append(extraTypes(cat), shapes...))
+	// outside the property's quantifier, kept as a demonstration that its guards are tight
+	// (C06_gostring_unexported_refuted / _infinite_refuted replayed on the real code): local
+	// structs with unexported fields - the model's evaluator and the Go compiler must both
+	// reject the text; values with infinite floats are kept in the pools for the same reason.
+	// (named structs only: an UNNAMED struct type with an unexported field written in the importing
+	// package is a different type whose field belongs to that package - it compiles, to another type)
+	demo := []*ga.Type{cat.SP, ga.P(cat.SP), ga.Sl(cat.SP), ga.M(ga.B("string"), ga.P(cat.SP))}
+	isDemo := map[string]bool{}
+	for _, t := range demo {
+		isDemo[t.Go(0)] = true
+	}
+	shapes = ga.Dedup(append(shapes, demo...))
+	var types []*ga.Type
+	for _, t := range shapes {
+		switch {
+		case isDemo[t.Go(0)]:
+			types = append(types, t)
+			meta.Count("types/outside-guard-demo")
+		case !exportedOnly(t, map[int]bool{}):
+			meta.Count("types/skipped-unexported-fields")
+		case bothExt(t):
+			// two imported packages with the same NAME: no text can name both (see notes)
+			meta.Count("types/skipped-two-packages-named-ext")
+		default:
+			types = append(types, t)
+		}
+	}
+	corpus, err := loadCorpus(cfg.Corpus)
+	if err != nil {
+		return nil, err
+	}
+	for _, cc := range corpus {
+		types = append(types, cc.t)
+	}
+	types = ga.Dedup(types)
+	corpusVals := map[string][]*ga.Val{}
+	for _, cc := range corpus {
+		corpusVals[cc.t.Go(0)] = append(corpusVals[cc.t.Go(0)], cc.v)
+	}
+
+	// ---- probe: goderive must accept every exported-only type ----
+	classes := make([]string, len(types))
+	outs := make([]string, len(types))
+	hx.Parallel(len(types), 16, func(i int) {
+		p := &pkg{dir: filepath.Join(cfg.Work, "probe", fmt.Sprintf("t%04d", i)), types: []*ga.Type{types[i]}, idx: []int{i}}
+		if err := p.write(); err != nil {
+			classes[i], outs[i] = "harness-error", err.Error()
+			return
+		}
+		g := p.generate(cfg.Goderive)
+		if c := ga.ClassifyGoderive(g); c == "other-error" || c == "timeout" {
+			g = p.generate(cfg.Goderive)
+		}
+		classes[i], outs[i] = ga.ClassifyGoderive(g), hx.Truncate(g.Out, 1500)
+	})
+	var sup strings.Builder
+	var ok []*ga.Type
+	var okIdx []int
+	for i, t := range types {
+		meta.GoderiveRuns++
+		meta.Count("gen/" + classes[i])
+		fmt.Fprintf(&sup, "(sup-gs %s %s)\n", t.Sexp(), classes[i])
+		if classes[i] == "ok" {
+			ok = append(ok, t)
+			okIdx = append(okIdx, i)
+		} else {
+			meta.Notes = append(meta.Notes, "goderive "+classes[i]+" for "+t.Go(0)+": "+hx.Truncate(outs[i], 300))
+		}
+	}
+	supf := filepath.Join(cfg.Out, "c06-support.obs")
+	if err := os.WriteFile(supf, []byte(sup.String()), 0o644); err != nil {
+		return nil, err
+	}
+	meta.ObsFiles = append(meta.ObsFiles, supf)
+
+	// ---- batches ----
+	bts, bis := ga.Batches(ok, okIdx, 40)
+	nb := len(bts)
+	obsFiles := make([]string, nb)
+	errs := make([]error, nb)
+	rs := make([]*hx.Rand, nb)
+	for b := range rs {
+		rs[b] = r.Fork(uint64(b))
+	}
+	hx.Parallel(nb, 6, func(b int) {
+		p := &pkg{dir: filepath.Join(cfg.Work, fmt.Sprintf("batch%02d", b)), types: bts[b], idx: bis[b]}
+		if errs[b] = p.write(); errs[b] != nil {
+			return
+		}
+		g := p.generate(cfg.Goderive)
+		if g.Exit != 0 {
+			meta.AddDirect(hx.Direct{Class: "c06-batch-generate-failed", What: "goderive fails on a batch of types that it accepts one by one", Cmd: "goderive ./lib", Output: hx.Truncate(g.Out, 3000)})
+			return
+		}
+		if bd := hx.GoBuild(p.dir, filepath.Join(p.dir, "drv"), "drv", "./cmd/drv"); bd.Exit != 0 {
+			meta.AddDirect(hx.Direct{Class: "c06-batch-build-failed", What: "the generated deriveGoString functions do not compile", Cmd: "go build -tags drv ./cmd/drv", Output: hx.Truncate(bd.Out, 3000),
+				Files: map[string]string{"lib/decls.go": p.files["lib/decls.go"], "lib/calls.go": p.files["lib/calls.go"]}})
+			return
+		}
+		// stage 1: texts
+		gen := ga.NewGen(rs[b], pool)
+		var cases strings.Builder
+		tcs := make([]*tcase, len(p.types))
+		for i, t := range p.types {
+			tc := &tcase{idx: p.idx[i], t: t}
+			vals := append(append([]*ga.Val{}, corpusVals[t.Go(0)]...), gen.Pool(t, map[int]*ga.Type{}, 3)...)
+			for _, v := range vals {
+				if !finite(t, v, map[int]*ga.Type{}) {
+					// outside the quantifier ("finite floats"): the text contains +Inf; model and compiler must both reject it
+					meta.CountSafe("values/non-finite-float-outside-guard")
+				}
+				tc.vals = append(tc.vals, v)
+				fmt.Fprintf(&cases, "gs %d %s\n", tc.idx, v.Sexp())
+			}
+			meta.CountSafe(fmt.Sprintf("pool-size/%02d", min(len(tc.vals), 40)))
+			tcs[i] = tc
+		}
+		cf := filepath.Join(p.dir, "cases.txt")
+		if errs[b] = os.WriteFile(cf, []byte(cases.String()), 0o644); errs[b] != nil {
+			return
+		}
+		res := hx.Run(p.dir, 600e9, 8000000, nil, filepath.Join(p.dir, "drv"), cf)
+		if res.Exit != 0 {
+			meta.AddDirect(hx.Direct{Class: "c06-driver-failed", What: "stage-1 driver crashed", Cmd: "./drv cases.txt", Output: hx.Truncate(res.Out, 3000)})
+			return
+		}
+		lines := strings.Split(strings.TrimRight(res.Stdout, "\n"), "\n")
+		li := 0
+		cv := newConv(p.decls)
+		for _, tc := range tcs {
+			for range tc.vals {
+				if li >= len(lines) {
+					errs[b] = fmt.Errorf("stage 1: driver printed %d lines, expected more", len(lines))
+					return
+				}
+				text, bad := textOf(lines[li])
+				li++
+				tc.text = append(tc.text, text)
+				tc.bad = append(tc.bad, bad)
+				sx := "unparsed"
+				if bad == "" {
+					s, err := cv.Text(text)
+					if err == nil {
+						sx = s
+					} else {
+						meta.CountSafe("text/unparsed")
+						meta.Sample("UNPARSED (" + err.Error() + "): " + hx.Truncate(text, 300))
+					}
+				}
+				tc.sx = append(tc.sx, sx)
+				tc.rt = append(tc.rt, "missing")
+			}
+		}
+		// stage 2: compile and evaluate the texts
+		stage2(p, tcs, meta)
+		var obs strings.Builder
+		for _, tc := range tcs {
+			for j, v := range tc.vals {
+				fmt.Fprintf(&obs, "(gs %s %s %s %s)\n", tc.t.Sexp(), v.Sexp(), tc.sx[j], tc.rt[j])
+				if j == 1 {
+					meta.Sample(hx.Truncate(tc.t.Go(0)+" :: "+strings.ReplaceAll(tc.text[j], "\n", "; "), 400))
+				}
+				meta.CountSafe("stage2/" + rtClass(tc.rt[j]))
+			}
+		}
+		obsFiles[b] = filepath.Join(cfg.Out, fmt.Sprintf("c06-batch%02d.obs", b))
+		errs[b] = os.WriteFile(obsFiles[b], []byte(obs.String()), 0o644)
+	})
+	for b := range obsFiles {
+		if errs[b] != nil {
+			return nil, errs[b]
+		}
+		if obsFiles[b] != "" {
+			meta.ObsFiles = append(meta.ObsFiles, obsFiles[b])
+			meta.GoderiveRuns++
+			meta.Packages++
+		}
+	}
+	meta.Count(fmt.Sprintf("types=%d accepted=%d corpus=%d", len(types), len(ok), len(corpus)))
+	sameNameDemo(cfg, meta)
+	return meta, nil
+}
+
+func rtClass(rt string) string {
+	switch rt {
+	case "missing", "nocompile", "panic":
+		return rt
+	}
+	return "evaluated"
+}
+
+// textOf extracts the string from a driver line `(gs TY VAL (ret (s b ...)))`.
+func textOf(line string) (string, string) {
+	line = strings.TrimSuffix(line, ")")
+	switch {
+	case strings.HasSuffix(line, " panic"):
+		return "", "panic"
+	case strings.HasSuffix(line, " nofunc"):
+		return "", "nofunc"
+	}
+	i := strings.LastIndex(line, "(ret (s")
+	if i < 0 {
+		return "", "bad-line"
+	}
+	body := strings.TrimSuffix(strings.TrimSpace(line[i+len("(ret (s"):]), "))")
+	var b []byte
+	for _, f := range strings.Fields(body) {
+		n, err := strconv.Atoi(f)
+		if err != nil {
+			return "", "bad-line"
+		}
+		b = append(b, byte(n))
+	}
+	return string(b), ""
+}
+
+// ---------- guard (mirrors GoStr/Match.v: exp_only, finite) ----------
+
+func exportedOnly(t *ga.Type, seen map[int]bool) bool {
+	switch t.K {
+	case ga.KBasic, ga.KRef:
+		return true
+	case ga.KNamed:
+		if seen[t.ID] {
+			return true
+		}
+		seen[t.ID] = true
+		return exportedOnly(t.Elem, seen)
+	case ga.KPtr, ga.KSlice, ga.KArray:
+		return exportedOnly(t.Elem, seen)
+	case ga.KMap:
+		return exportedOnly(t.Key, seen) && exportedOnly(t.Elem, seen)
+	case ga.KStruct:
+		for _, f := range t.Fields {
+			if f.Priv || !exportedOnly(f.T, seen) {
+				return false
+			}
+		}
+		return true
+	}
+	return false
+}
+
+func bothExt(t *ga.Type) bool {
+	decls := map[int]*ga.Type{}
+	t.Decls(decls)
+	used := map[int]bool{}
+	t.UsesExt(used)
+	for _, d := range decls {
+		if d.Ext != 0 {
+			used[d.Ext] = true
+		} else {
+			d.Elem.UsesExt(used)
+		}
+	}
+	return used[1] && used[2]
+}
+
+const f32Inf, f64Inf = 0x7F800000, 0x7FF0000000000000
+
+func finite(t *ga.Type, v *ga.Val, env map[int]*ga.Type) bool {
+	switch t.K {
+	case ga.KNamed:
+		env2 := map[int]*ga.Type{}
+		for k, x := range env {
+			env2[k] = x
+		}
+		env2[t.ID] = t
+		return finite(t.Elem, v, env2)
+	case ga.KRef:
+		return finite(env[t.ID].Elem, v, env)
+	case ga.KBasic:
+		lim := uint64(f64Inf)
+		if t.Basic == "float32" || t.Basic == "complex64" {
+			lim = f32Inf
+		}
+		switch v.K {
+		case "f":
+			return v.Mag < lim
+		case "c":
+			return v.Mag < lim && v.IMag < lim
+		}
+		return true
+	case ga.KPtr:
+		return v.K != "p" || finite(t.Elem, v.Elems[0], env)
+	case ga.KSlice, ga.KArray:
+		for _, e := range v.Elems {
+			if !finite(t.Elem, e, env) {
+				return false
+			}
+		}
+		return true
+	case ga.KMap:
+		for _, kv := range v.KVs {
+			if !finite(t.Key, kv[0], env) || !finite(t.Elem, kv[1], env) {
+				return false
+			}
+		}
+		return true
+	case ga.KStruct:
+		for i, f := range t.Fields {
+			if !finite(f.T, v.Elems[i], env) {
+				return false
+			}
+		}
+		return true
+	}
+	return true
+}
+
+// extraTypes: shapes the shared catalogue does not have (named containers of non-basic
+// elements, named pointers to structs, a struct of a second imported package, pointer chains).
+func extraTypes(c *ga.Catalogue) []*ga.Type {
+	e4 := ga.Named(33, "E4", 2, ga.St(ga.B("string"), ga.Sl(ga.B("int"))))
+	nss := ga.Named(40, "NSS", 0, ga.Sl(c.S0))
+	nps := ga.Named(41, "NPS", 0, ga.P(c.S0))
+	nms := ga.Named(42, "NMS", 0, ga.M(c.S0, ga.P(c.S0)))
+	nas := ga.Named(43, "NAS", 0, ga.Ar(2, c.NInt))
+	nf32 := ga.Named(44, "NF32", 0, ga.B("float32"))
+	big := ga.Named(45, "Big", 0, ga.St(
+		ga.P(ga.B("int")), ga.Sl(ga.B("string")), ga.M(ga.B("string"), ga.B("int")), c.NInt, ga.P(c.NInt), ga.Sl(c.NInt),
+		ga.Ar(2, c.NStr), ga.M(c.NStr, c.S0), ga.M(c.S0, ga.P(c.S0)), c.NSl, c.NMap, c.NArr, c.NPtr, c.E3,
+		ga.Sl(ga.B("uint8")), ga.P(ga.P(ga.B("int"))), ga.P(ga.Sl(ga.B("int"))), ga.M(ga.B("float64"), ga.Sl(ga.B("uint8"))),
+		ga.St(ga.B("int"), ga.B("string")), c.SE, ga.P(c.SE), ga.Ar(0, ga.B("int")), ga.B("float32"), ga.B("complex64"),
+		c.NU8, ga.P(ga.B("string")), ga.M(ga.Ar(2, ga.B("int")), ga.B("float64")), ga.Sl(ga.P(ga.B("int"))), nps, nss))
+	return []*ga.Type{
+		e4, ga.P(e4), ga.Sl(e4), nss, nps, nms, nas, nf32, big, ga.P(big),
+		ga.P(ga.P(ga.P(ga.B("int")))), ga.P(ga.P(c.S0)), ga.P(c.NPtr), ga.P(c.NSl), ga.P(c.NMap), ga.P(c.NArr),
+		ga.M(c.NStr, ga.Sl(c.NSl)), ga.M(ga.B("float64"), ga.P(ga.B("float64"))), ga.M(ga.B("bool"), c.S0),
+		ga.M(ga.B("uint8"), ga.Sl(ga.B("uint8"))), ga.M(ga.B("complex128"), c.NInt), ga.M(ga.St(ga.B("float64"), ga.B("string")), ga.B("string")),
+		ga.Sl(ga.Sl(ga.B("uint8"))), ga.Sl(ga.M(ga.B("string"), ga.B("float32"))), ga.Ar(2, ga.Ar(2, ga.B("complex64"))),
+		ga.St(ga.B("float32"), ga.B("complex64"), ga.B("uint64"), ga.B("int8"), ga.B("bool")),
+		ga.Sl(ga.B("float32")), ga.Sl(ga.B("complex64")), ga.Sl(ga.B("bool")), ga.Sl(ga.B("uint64")), ga.Ar(2, ga.B("float64")),
+		ga.M(ga.B("int"), ga.B("float32")), ga.M(ga.B("string"), ga.B("complex128")), ga.M(ga.B("float64"), ga.B("bool")),
+		ga.P(ga.B("float32")), ga.P(ga.B("complex128")), ga.P(ga.B("uint8")), ga.P(ga.B("bool")),
+		ga.M(ga.B("string"), ga.P(ga.B("int"))), ga.M(ga.B("string"), c.S0), ga.M(ga.B("string"), ga.Sl(ga.B("string"))),
+		ga.M(ga.B("complex128"), ga.P(ga.B("string"))), ga.M(ga.B("int"), c.NStr), ga.M(ga.B("uint8"), c.Rec),
+		ga.M(c.NStr, ga.B("string")), ga.M(c.NF64, ga.B("float64")), ga.M(ga.Ar(2, ga.B("string")), ga.Sl(ga.B("string"))),
+	}
+}
+
+// ---------- scratch module: p/lib (types + derive calls), p/cmd/drv (driver) ----------
+
+type pkg struct {
+	dir   string
+	types []*ga.Type
+	idx   []int
+	decls map[int]*ga.Type
+	files map[string]string
+}
+
+var extAlias = map[int]string{1: "ext", 2: "ext2"} // as ga.Type.Go spells them
+
+func importBlock(exts map[int]bool, extra ...string) string {
+	var ids []int
+	for e := range exts {
+		ids = append(ids, e)
+	}
+	sort.Ints(ids)
+	if len(ids) == 0 && len(extra) == 0 {
+		return ""
+	}
+	var b strings.Builder
+	b.WriteString("import (\n")
+	for _, x := range extra {
+		b.WriteString("\t" + x + "\n")
+	}
+	for _, e := range ids {
+		fmt.Fprintf(&b, "\t%s %q\n", extAlias[e], ga.ExtPaths[e])
+	}
+	b.WriteString(")\n\n")
+	return b.String()
+}
+
+func (p *pkg) write() error {
+	if err := hx.Module(p.dir); err != nil {
+		return err
+	}
+	p.decls = map[int]*ga.Type{}
+	for _, t := range p.types {
+		t.Decls(p.decls)
+	}
+	declExt, callExt := map[int]bool{}, map[int]bool{}
+	for _, d := range p.decls {
+		if d.Ext == 0 {
+			d.Elem.UsesExt(declExt)
+		}
+	}
+	for _, t := range p.types {
+		t.UsesExt(callExt)
+	}
+	files := map[string]string{}
+	files["lib/decls.go"] = "package lib\n\n" + importBlock(declExt) + ga.DeclSource(p.decls, 0)
+	var calls, regs, tys strings.Builder
+	calls.WriteString("package lib\n\n" + importBlock(callExt))
+	regs.WriteString("//go:build drv\n\npackage main\n\nimport \"p/lib\"\n\nfunc init() {\n")
+	for i, t := range p.types {
+		idx := p.idx[i]
+		fmt.Fprintf(&calls, "func Gs_%d(a %s) string { return deriveGoString_%d(a) }\n", idx, t.Go(0), idx)
+		fmt.Fprintf(&regs, "\treg(\"gs\", %d, lib.Gs_%d)\n", idx, idx)
+		fmt.Fprintf(&tys, "%d %s\n", idx, t.Sexp())
+	}
+	regs.WriteString("}\n")
+	files["lib/calls.go"] = calls.String()
+	files["cmd/drv/reg.go"] = regs.String()
+	files["cmd/drv/rt.go"] = ga.RTSource
+	files["types.txt"] = tys.String()
+	for _, d := range p.decls {
+		if d.Ext != 0 {
+			ds := map[int]*ga.Type{}
+			for id, x := range p.decls {
+				if x.Ext == d.Ext {
+					ds[id] = x
+				}
+			}
+			files[strings.TrimPrefix(ga.ExtPaths[d.Ext], "p/")+"/ext.go"] = "package ext\n\n" + ga.DeclSource(ds, d.Ext)
+		}
+	}
+	p.files = files
+	return hx.WriteFiles(p.dir, files)
+}
+
+func (p *pkg) generate(goderive string) hx.RunResult {
+	return hx.Goderive(goderive, p.dir, "./lib")
+}
+
+// ---------- stage 2 ----------
+
+var errLine = regexp.MustCompile(`(?m)^cmd/s2\w*/vals\.go:(\d+):`)
+
+type s2item struct {
+	tc   *tcase
+	j    int
+	from int // first line of the function in vals.go
+	to   int
+}
+
+// stage2 assembles one program per imported package named ext (a Go file can bind the name
+// `ext` to one package only) from the texts of the batch, builds it and evaluates every text.
+// Texts the compiler rejects are marked `nocompile` and the rest is built again.
+func stage2(p *pkg, tcs []*tcase, meta *hx.Meta) {
+	groups := map[int][]s2item{}
+	for _, tc := range tcs {
+		used := map[int]bool{}
+		tc.t.UsesExt(used)
+		ds := map[int]*ga.Type{}
+		tc.t.Decls(ds)
+		for _, d := range ds {
+			if d.Ext != 0 {
+				used[d.Ext] = true
+			} else {
+				d.Elem.UsesExt(used)
+			}
+		}
+		g := 0
+		if used[2] {
+			g = 2
+		} else if used[1] {
+			g = 1
+		}
+		for j := range tc.vals {
+			if tc.bad[j] != "" {
+				tc.rt[j] = "panic"
+				continue
+			}
+			groups[g] = append(groups[g], s2item{tc: tc, j: j})
+		}
+	}
+	// the programs that import nothing named ext and those that import x1 can share one file
+	if len(groups[0]) > 0 && len(groups[1]) > 0 {
+		groups[1] = append(groups[1], groups[0]...)
+		delete(groups, 0)
+	}
+	for g, items := range groups {
+		name := fmt.Sprintf("s2g%d", g)
+		for attempt := 0; attempt < 4 && len(items) > 0; attempt++ {
+			src := s2source(p, g, items)
+			dir := filepath.Join(p.dir, "cmd", name)
+			if err := hx.WriteFiles(dir, map[string]string{"vals.go": src, "rt.go": strings.Replace(ga.RTSource, "func main() {", "func rtMain() {", 1)}); err != nil {
+				meta.AddDirect(hx.Direct{Class: "c06-harness-error", What: err.Error()})
+				return
+			}
+			bd := hx.GoBuild(p.dir, filepath.Join(p.dir, name), "drv", "-gcflags=-e", "./cmd/"+name)
+			if bd.Exit == 0 {
+				res := hx.Run(p.dir, 600e9, 8000000, nil, filepath.Join(p.dir, name))
+				if res.Exit != 0 {
+					meta.AddDirect(hx.Direct{Class: "c06-stage2-crashed", What: "stage-2 program crashed", Cmd: "./" + name, Output: hx.Truncate(res.Out, 3000)})
+					return
+				}
+				lines := strings.Split(strings.TrimRight(res.Stdout, "\n"), "\n")
+				for i, it := range items {
+					if i < len(lines) {
+						f := strings.SplitN(lines[i], " ", 2)
+						if len(f) == 2 && f[0] == strconv.Itoa(i) {
+							it.tc.rt[it.j] = f[1]
+						}
+					}
+				}
+				break
+			}
+			// map the compiler's complaints to texts
+			badLines := map[int]bool{}
+			for _, m := range errLine.FindAllStringSubmatch(bd.Out, -1) {
+				n, _ := strconv.Atoi(m[1])
+				badLines[n] = true
+			}
+			var rest []s2item
+			nbad := 0
+			for _, it := range items {
+				hit := false
+				for l := range badLines {
+					if l >= it.from && l <= it.to {
+						hit = true
+					}
+				}
+				if hit {
+					it.tc.rt[it.j] = "nocompile"
+					nbad++
+					meta.Sample("NOCOMPILE " + it.tc.t.Go(0) + " :: " + hx.Truncate(strings.ReplaceAll(it.tc.text[it.j], "\n", "; "), 300) + " :: " + hx.Truncate(firstErr(bd.Out, it.from, it.to), 200))
+				} else {
+					rest = append(rest, it)
+				}
+			}
+			if nbad == 0 {
+				meta.AddDirect(hx.Direct{Class: "c06-stage2-build-failed", What: "the stage-2 program does not build and the errors cannot be attributed to a text", Cmd: "go build ./cmd/" + name, Output: hx.Truncate(bd.Out, 3000)})
+				return
+			}
+			items = rest
+		}
+	}
+}
+
+func firstErr(out string, from, to int) string {
+	for _, l := range strings.Split(out, "\n") {
+		if m := errLine.FindStringSubmatch(l); m != nil {
+			n, _ := strconv.Atoi(m[1])
+			if n >= from && n <= to {
+				return l
+			}
+		}
+	}
+	return ""
+}
+
+func s2source(p *pkg, g int, items []s2item) string {
+	var b strings.Builder
+	b.WriteString("//go:build drv\n\npackage main\n\nimport (\n\t\"fmt\"\n\t\"reflect\"\n\t\"p/lib\"\n")
+	if g != 0 {
+		// the importing package uses the package's own NAME (the text says ext.T)
+		fmt.Fprintf(&b, "\t%q\n", ga.ExtPaths[g])
+	}
+	b.WriteString(")\n\n")
+	fmt.Fprintf(&b, "var _ = lib.Gs_%d\n", p.idx[0])
+	if g != 0 {
+		for _, d := range p.decls {
+			if d.Ext == g {
+				fmt.Fprintf(&b, "var _ *ext.%s\n", d.Name)
+				break
+			}
+		}
+	}
+	b.WriteString("\nvar fs = []func() interface{}{\n")
+	for i := range items {
+		fmt.Fprintf(&b, "\tf%d,\n", i)
+	}
+	b.WriteString("}\n\n")
+	b.WriteString("func call(f func() interface{}) (s string) {\n\tdefer func() {\n\t\tif r := recover(); r != nil {\n\t\t\ts = \"panic\"\n\t\t}\n\t}()\n\treturn serS(reflect.ValueOf(f()), &labeler{})\n}\n\n")
+	b.WriteString("func main() {\n\tfor i, f := range fs {\n\t\tfmt.Printf(\"%d %s\\n\", i, call(f))\n\t}\n}\n\n")
+	line := strings.Count(b.String(), "\n") + 1
+	for i := range items {
+		it := &items[i]
+		text := it.tc.text[it.j]
+		src := fmt.Sprintf("func f%d() interface{} {\n\treturn %s\n}\n", i, strings.TrimRight(text, "\n"))
+		it.from = line
+		line += strings.Count(src, "\n")
+		it.to = line - 1
+		b.WriteString(src)
+	}
+	return b.String()
+}
+
+// sameNameDemo records (as a count, not as a violation) what happens for a type built from two
+// imported packages that are both NAMED ext: the text says ext.E3 and ext.E4 - package names, as
+// fmt's %#v prints them - so no single file can compile it whatever aliases it chooses.  This is
+// outside the property ("a package importing the type's package" under its name); see notes.
+func sameNameDemo(cfg hx.Config, meta *hx.Meta) {
+	cat := ga.NewCatalogue()
+	e4 := ga.Named(33, "E4", 2, ga.St(ga.B("string"), ga.Sl(ga.B("int"))))
+	t := ga.St(cat.E3, e4)
+	p := &pkg{dir: filepath.Join(cfg.Work, "same-name-demo"), types: []*ga.Type{t}, idx: []int{0}}
+	note := "types mentioning two imported packages with the same name (p/x1/ext, p/x2/ext) are skipped: the text uses package NAMES (as fmt's %#v does), so no text can name both; see notes/C06.md"
+	defer func() { meta.Notes = append(meta.Notes, note) }()
+	if err := p.write(); err != nil {
+		return
+	}
+	if g := p.generate(cfg.Goderive); g.Exit != 0 {
+		return
+	}
+	if bd := hx.GoBuild(p.dir, filepath.Join(p.dir, "drv"), "drv", "./cmd/drv"); bd.Exit != 0 {
+		return
+	}
+	cf := filepath.Join(p.dir, "cases.txt")
+	if os.WriteFile(cf, []byte("gs 0 (st (st (i 1) (b 1)) (st (s 97) nils))\n"), 0o644) != nil {
+		return
+	}
+	res := hx.Run(p.dir, 60e9, 8000000, nil, filepath.Join(p.dir, "drv"), cf)
+	text, bad := textOf(strings.TrimSpace(res.Stdout))
+	if res.Exit != 0 || bad != "" {
+		return
+	}
+	if strings.Contains(text, "ext.E3{}") && strings.Contains(text, "ext.E4{}") {
+		meta.Count("demo/two-packages-named-ext: the text names both `ext`")
+		note += " [demonstrated in this run: " + hx.Truncate(strings.ReplaceAll(text, "\n", "; "), 200) + "]"
+	} else {
+		meta.Count("demo/two-packages-named-ext: text does NOT name both ext (behaviour changed?)")
+	}
 }
